@@ -623,7 +623,7 @@ theorem specBlocked_iff (P Wd Wh : List Name) (n : Name) :
       ¬ (∃ e ∈ Wh, e <:+ n) ∧ ((∃ e ∈ P, e <:+ n) ∨ ∃ e ∈ Wd, e <:+ n ∧ e ≠ n) := by
   unfold specBlocked isSelfOrParent isStrictParent
   simp only [Bool.and_eq_true, Bool.not_eq_true', Bool.or_eq_true, List.any_eq_true,
-    decide_eq_true_eq, List.any_eq_false, decide_eq_false_iff_not, not_exists, not_and]
+    decide_eq_true_eq, List.any_eq_false, not_exists, not_and]
 
 /-! ### persistence -/
 
@@ -815,7 +815,7 @@ theorem inv_begin (m0 : Option (List Str)) (s : PState) (i : Nat) (ok : Bool) (h
       by_cases hstale : snap.version ≠ 0 ∧ snap.version ≤ s.lastPersisted
       · rw [if_pos hstale]
         refine ⟨h.lp_le, h.taken_le, h.top, h.top_unique, hpsub, ?_, ?_, ?_⟩
-        · intro f hf; simp only [hin] at hf; cases hf
+        · intro f hf; simp only at hf; cases hf
         · intro _; exact hfile
         · intro x hx
           rcases hacc x hx with h' | h' | h' | h'
@@ -843,7 +843,7 @@ theorem inv_begin (m0 : Option (List Str)) (s : PState) (i : Nat) (ok : Bool) (h
         | false =>
           simp only [Bool.false_eq_true, if_false]
           refine ⟨h.lp_le, h.taken_le, h.top, h.top_unique, hpsub, ?_, ?_, ?_⟩
-          · intro f hf; simp only [hin] at hf; cases hf
+          · intro f hf; simp only at hf; cases hf
           · intro _; exact hfile
           · intro x hx
             rcases hacc x hx with h' | h' | h' | h'
@@ -1031,5 +1031,284 @@ theorem inv_run (m0 : Option (List Str)) (s : PState) (steps : List Step) (h : I
   induction steps generalizing s with
   | nil => exact h
   | cons st t ih => exact ih (step s st) (inv_step m0 s st h)
+
+/-! ### reload -/
+
+/-- the text of a wildcard entry whose stored suffix is `s`. -/
+def wildName (s : Str) : Str := '*' :: '.' :: s
+
+/-- what `setLocked` guarantees about the maps it builds (with a properly escaped
+key: `canonical` is a fixpoint on it) -/
+structure WF (b : Mem) : Prop where
+  canon_m : ∀ e ∈ b.m, canonical e = e
+  canon_w : ∀ s ∈ b.wild, canonical (wildName s) = wildName s
+  nowild_m : ∀ e ∈ b.m, isWildKey e = false
+  nowl_m : ∀ e ∈ b.m, ¬ Hit e b.w
+  nowl_w : ∀ s ∈ b.wild, ¬ Hit (wildName s) b.w
+
+/-- the block side of `Exists` (whitelist aside). -/
+def Cov (r : Mem) (k : Str) : Prop := Hit k r.m ∨ ∃ s ∈ dotSuffixes k, s ∈ r.wild
+
+theorem exists_iff_cov (r : Mem) (k : Str) (hc : canonical k = k) :
+    «exists» r k = true ↔ ¬ Hit k r.w ∧ Cov r k := by
+  unfold «exists»; rw [hc, existsCanon_iff]; rfl
+
+/-- the names `b` stands for, as the file lists them. -/
+def IsNameOf (b : Mem) (n : Str) : Prop := n ∈ b.m ∨ ∃ s ∈ b.wild, n = wildName s
+
+theorem mem_insertKey (l : List Str) (k x : Str) : x ∈ insertKey l k ↔ x ∈ l ∨ x = k := by
+  unfold insertKey
+  split
+  · rename_i h
+    constructor
+    · exact Or.inl
+    · rintro (h' | rfl)
+      · exact h'
+      · exact h
+  · simp
+
+theorem isWildKey_wildName (s : Str) : isWildKey (wildName s) = true := rfl
+
+theorem dotSuffixes_wildName (s : Str) :
+    dotSuffixes (wildName s) = if s = [] then [] else s :: dotSuffixes s := by
+  unfold wildName dotSuffixes
+  have h1 : ¬ ('*' = '\\') := by decide
+  have h2 : ¬ ('*' = '.') := by decide
+  have h3 : ¬ ('.' = '\\') := by decide
+  simp only [dotSuffixesAux, h1, h2, h3, if_false, if_true]
+
+/-- `r` holds a subset of `b`'s entries under the same whitelist. -/
+structure Sub (r b : Mem) : Prop where
+  m : ∀ e ∈ r.m, e ∈ b.m
+  wild : ∀ s ∈ r.wild, s ∈ b.wild
+  w : r.w = b.w
+
+theorem Cov_mono (r r' : Mem) (hm : ∀ e ∈ r.m, e ∈ r'.m) (hw : ∀ s ∈ r.wild, s ∈ r'.wild) (k : Str)
+    (h : Cov r k) : Cov r' k := by
+  rcases h with (h | ⟨s, hs, h⟩) | ⟨s, hs, h⟩
+  · exact Or.inl (Or.inl (hm _ h))
+  · exact Or.inl (Or.inr ⟨s, hs, hm _ h⟩)
+  · exact Or.inr ⟨s, hs, hw _ h⟩
+
+/-- one loader step for a name of `b`: stays inside `b`, only grows, and afterwards
+the name is covered (or, for a wildcard, present). -/
+theorem loadName_spec (b r : Mem) (hwf : WF b) (hsub : Sub r b) (n : Str) (hn : IsNameOf b n) :
+    Sub (loadName r n) b ∧
+    (∀ e ∈ r.m, e ∈ (loadName r n).m) ∧ (∀ s ∈ r.wild, s ∈ (loadName r n).wild) ∧
+    (n ∈ b.m → Cov (loadName r n) n) ∧
+    (∀ s ∈ b.wild, n = wildName s → Cov (loadName r n) n ∨ s ∈ (loadName r n).wild) ∧
+    («exists» r n = false → (n ∈ b.m → n ∈ (loadName r n).m) ∧ (∀ s ∈ b.wild, n = wildName s → s ∈ (loadName r n).wild)) := by
+  have hcn : canonical n = n := by
+    rcases hn with h | ⟨s, hs, rfl⟩
+    · exact hwf.canon_m n h
+    · exact hwf.canon_w s hs
+  have hnowl : ¬ Hit n r.w := by
+    rw [hsub.w]
+    rcases hn with h | ⟨s, hs, rfl⟩
+    · exact hwf.nowl_m n h
+    · exact hwf.nowl_w s hs
+  unfold loadName
+  simp only [hcn]
+  cases hex : «exists» r n with
+  | true =>
+    simp only [if_true]
+    have hcov := ((exists_iff_cov r n hcn).mp hex).2
+    exact ⟨hsub, fun e h => h, fun s h => h, fun _ => hcov, fun s _ _ => Or.inl hcov, fun h => by cases h⟩
+  | false =>
+    simp only [Bool.false_eq_true, if_false]
+    have hmh : matchHierarchy n r.w = false := by
+      cases hh : matchHierarchy n r.w with
+      | false => rfl
+      | true => exact absurd ((matchHierarchy_iff n r.w).mp hh) hnowl
+    unfold setLocked
+    simp only [hcn, hmh, Bool.false_eq_true, if_false]
+    rcases hn with h | ⟨s, hs, rfl⟩
+    · have hnw := hwf.nowild_m n h
+      simp only [hnw, Bool.false_eq_true, if_false]
+      refine ⟨⟨?_, hsub.wild, hsub.w⟩, ?_, fun s h => h, ?_, ?_, ?_⟩
+      · intro e he
+        rcases (mem_insertKey _ _ _).mp he with h' | rfl
+        · exact hsub.m e h'
+        · exact h
+      · intro e he; exact (mem_insertKey _ _ _).mpr (Or.inl he)
+      · intro _; exact Or.inl (Or.inl ((mem_insertKey _ _ _).mpr (Or.inr rfl)))
+      · intro s hs hns
+        rw [hns, isWildKey_wildName] at hnw; cases hnw
+      · intro _
+        exact ⟨fun _ => (mem_insertKey _ _ _).mpr (Or.inr rfl),
+               fun s hs hns => by rw [hns, isWildKey_wildName] at hnw; cases hnw⟩
+    · simp only [isWildKey_wildName, if_true]
+      have hdrop : (wildName s).drop 2 = s := rfl
+      rw [hdrop]
+      refine ⟨⟨hsub.m, ?_, hsub.w⟩, fun e h => h, ?_, ?_, ?_, ?_⟩
+      · intro t ht
+        rcases (mem_insertKey _ _ _).mp ht with h' | rfl
+        · exact hsub.wild t h'
+        · exact hs
+      · intro t ht; exact (mem_insertKey _ _ _).mpr (Or.inl ht)
+      · intro hm
+        have := hwf.nowild_m _ hm
+        rw [isWildKey_wildName] at this; cases this
+      · intro s' _ hs'
+        have : s' = s := by unfold wildName at hs'; simpa using hs'.symm
+        right; rw [this]; exact (mem_insertKey _ _ _).mpr (Or.inr rfl)
+      · intro _
+        refine ⟨fun hm => ?_, fun s' _ hs' => ?_⟩
+        · have := hwf.nowild_m _ hm
+          rw [isWildKey_wildName] at this; cases this
+        · have : s' = s := by unfold wildName at hs'; simpa using hs'.symm
+          rw [this]; exact (mem_insertKey _ _ _).mpr (Or.inr rfl)
+
+theorem loadNames_spec (b : Mem) (hwf : WF b) (names : List Str) (hall : ∀ n ∈ names, IsNameOf b n) :
+    ∀ r, Sub r b →
+    Sub (loadNames r names) b ∧
+    (∀ e ∈ r.m, e ∈ (loadNames r names).m) ∧ (∀ s ∈ r.wild, s ∈ (loadNames r names).wild) ∧
+    (∀ n ∈ names, n ∈ b.m → Cov (loadNames r names) n) ∧
+    (∀ n ∈ names, ∀ s ∈ b.wild, n = wildName s → Cov (loadNames r names) n ∨ s ∈ (loadNames r names).wild) := by
+  induction names with
+  | nil => intro r hsub; exact ⟨hsub, fun e h => h, fun s h => h, by simp, by simp⟩
+  | cons n t ih =>
+    intro r hsub
+    have hn := hall n (by simp)
+    obtain ⟨hs1, hm1, hw1, hc1, hc2, _⟩ := loadName_spec b r hwf hsub n hn
+    obtain ⟨hsR, hmR, hwR, hcR, hcR2⟩ := ih (fun x hx => hall x (List.mem_cons_of_mem _ hx)) (loadName r n) hs1
+    have hfold : loadNames r (n :: t) = loadNames (loadName r n) t := rfl
+    rw [hfold]
+    refine ⟨hsR, fun e he => hmR e (hm1 e he), fun s hs => hwR s (hw1 s hs), ?_, ?_⟩
+    · intro x hx hxm
+      rcases List.mem_cons.mp hx with rfl | hx
+      · exact Cov_mono _ _ hmR hwR _ (hc1 hxm)
+      · exact hcR x hx hxm
+    · intro x hx s hs hxs
+      rcases List.mem_cons.mp hx with rfl | hx
+      · rcases hc2 s hs hxs with h | h
+        · exact Or.inl (Cov_mono _ _ hmR hwR _ h)
+        · exact Or.inr (hwR s h)
+      · exact hcR2 x hx s hs hxs
+
+/-- no entry is covered by another one. -/
+def NoCover (b : Mem) : Prop :=
+  (∀ e ∈ b.m, ∀ t ∈ dotSuffixes e, t ∉ b.m ∧ t ∉ b.wild) ∧
+  (∀ s ∈ b.wild, s ∉ b.m ∧ ∀ t ∈ dotSuffixes s, t ∉ b.m ∧ t ∉ b.wild)
+
+theorem loadNames_exact (b : Mem) (hwf : WF b) (hnc : NoCover b) (names : List Str)
+    (hall : ∀ n ∈ names, IsNameOf b n) :
+    ∀ r, Sub r b →
+    (∀ n ∈ names, n ∈ b.m → n ∈ (loadNames r names).m) ∧
+    (∀ n ∈ names, ∀ s ∈ b.wild, n = wildName s → s ∈ (loadNames r names).wild) := by
+  induction names with
+  | nil => intro r _; simp
+  | cons n t ih =>
+    intro r hsub
+    have hn := hall n (by simp)
+    have hall' : ∀ x ∈ t, IsNameOf b x := fun x hx => hall x (List.mem_cons_of_mem _ hx)
+    obtain ⟨hs1, hm1, hw1, _, _, hadd⟩ := loadName_spec b r hwf hsub n hn
+    obtain ⟨_, hmR, hwR, _, _⟩ := loadNames_spec b hwf t hall' (loadName r n) hs1
+    obtain ⟨ihm, ihw⟩ := ih hall' (loadName r n) hs1
+    have hfold : loadNames r (n :: t) = loadNames (loadName r n) t := rfl
+    rw [hfold]
+    have hcn : canonical n = n := by
+      rcases hn with h | ⟨s, hs, rfl⟩
+      · exact hwf.canon_m n h
+      · exact hwf.canon_w s hs
+    constructor
+    · intro x hx hxm
+      rcases List.mem_cons.mp hx with rfl | hx
+      · apply hmR
+        cases hex : «exists» r x with
+        | false => exact (hadd hex).1 hxm
+        | true =>
+          have hcov := ((exists_iff_cov r x hcn).mp hex).2
+          rcases hcov with (h | ⟨s, hs, h⟩) | ⟨s, hs, h⟩
+          · exact hm1 x h
+          · exact absurd (hsub.m s h) (hnc.1 x hxm s hs).1
+          · exact absurd (hsub.wild s h) (hnc.1 x hxm s hs).2
+      · exact ihm x hx hxm
+    · intro x hx s hs hxs
+      rcases List.mem_cons.mp hx with rfl | hx
+      · apply hwR
+        cases hex : «exists» r x with
+        | false => exact (hadd hex).2 s hs hxs
+        | true =>
+          have hcov := ((exists_iff_cov r x hcn).mp hex).2
+          subst hxs
+          have hns := hnc.2 s hs
+          rw [Cov, Hit, dotSuffixes_wildName] at hcov
+          by_cases hs0 : s = []
+          · simp only [hs0, if_true, List.not_mem_nil, false_and, exists_false, or_false] at hcov
+            have := hwf.nowild_m _ (hsub.m _ hcov)
+            rw [isWildKey_wildName] at this; cases this
+          · simp only [hs0, if_false, List.mem_cons] at hcov
+            rcases hcov with (h | ⟨t', ht', h⟩) | ⟨t', ht', h⟩
+            · have := hwf.nowild_m _ (hsub.m _ h)
+              rw [isWildKey_wildName] at this; cases this
+            · rcases ht' with rfl | ht'
+              · exact absurd (hsub.m _ h) hns.1
+              · exact absurd (hsub.m _ h) (hns.2 t' ht').1
+            · rcases ht' with rfl | ht'
+              · exact hw1 _ h
+              · exact absurd (hsub.wild _ h) (hns.2 t' ht').2
+      · exact ihw x hx s hs hxs
+
+
+/-! ### `setLocked` / `removeLocked` keep the maps well-formed -/
+
+theorem wildName_drop (k : Str) (h : isWildKey k = true) : k = wildName (k.drop 2) := by
+  unfold isWildKey at h
+  split at h
+  · rfl
+  · cases h
+
+theorem wf_setLocked (b : Mem) (k : Str) (hwf : WF b) (hk : isFqdn (fqdn k) = true) :
+    WF (setLocked b k).1 := by
+  have hidem := canonical_idem k hk
+  unfold setLocked
+  simp only
+  cases hmh : matchHierarchy (canonical k) b.w with
+  | true => simp only [if_true]; exact hwf
+  | false =>
+    have hnowl : ¬ Hit (canonical k) b.w := fun h => by
+      rw [(matchHierarchy_iff _ _).mpr h] at hmh; cases hmh
+    simp only [Bool.false_eq_true, if_false]
+    cases hwk : isWildKey (canonical k) with
+    | true =>
+      simp only [if_true]
+      have hkey := wildName_drop _ hwk
+      refine ⟨hwf.canon_m, ?_, hwf.nowild_m, hwf.nowl_m, ?_⟩
+      · intro s hs
+        rcases (mem_insertKey _ _ _).mp hs with h | rfl
+        · exact hwf.canon_w s h
+        · rw [← hkey]; exact hidem
+      · intro s hs
+        rcases (mem_insertKey _ _ _).mp hs with h | rfl
+        · exact hwf.nowl_w s h
+        · rw [← hkey]; exact hnowl
+    | false =>
+      simp only [Bool.false_eq_true, if_false]
+      refine ⟨?_, hwf.canon_w, ?_, ?_, hwf.nowl_w⟩
+      · intro e he
+        rcases (mem_insertKey _ _ _).mp he with h | rfl
+        · exact hwf.canon_m e h
+        · exact hidem
+      · intro e he
+        rcases (mem_insertKey _ _ _).mp he with h | rfl
+        · exact hwf.nowild_m e h
+        · exact hwk
+      · intro e he
+        rcases (mem_insertKey _ _ _).mp he with h | rfl
+        · exact hwf.nowl_m e h
+        · exact hnowl
+
+theorem wf_removeLocked (b : Mem) (k : Str) (hwf : WF b) : WF (removeLocked b k).1 := by
+  unfold removeLocked
+  simp only
+  split
+  · exact ⟨fun e he => hwf.canon_m e (List.mem_of_mem_erase he), hwf.canon_w,
+           fun e he => hwf.nowild_m e (List.mem_of_mem_erase he),
+           fun e he => hwf.nowl_m e (List.mem_of_mem_erase he), hwf.nowl_w⟩
+  · split
+    · exact ⟨hwf.canon_m, fun s hs => hwf.canon_w s (List.mem_of_mem_erase hs), hwf.nowild_m, hwf.nowl_m,
+             fun s hs => hwf.nowl_w s (List.mem_of_mem_erase hs)⟩
+    · exact hwf
 
 end SdnsVerif.Lemmas.Blocklist
